@@ -68,6 +68,10 @@ def _unique_observable_times(
     return observable_times
 
 
+# Relative-time tolerance with which the backends match evaluation times
+_TIME_MATCHING_TOLERANCE = 1e-10
+
+
 def _get_target_times(
     sequence: pulser.Sequence,
     config: EmulationConfig,
@@ -84,9 +88,19 @@ def _get_target_times(
         i * float(dt) / duration for i in range(n_steps + 1)
     }
     evolution_times_rel.add(1.0)
-    target_times_rel = evolution_times_rel | _unique_observable_times(config)
-    target_times: list[float] = sorted({t * duration for t in target_times_rel})
-    return target_times
+    target_times_rel = sorted(evolution_times_rel | _unique_observable_times(config))
+
+    # Merge times that coincide within the tolerance the backends use to match
+    # evaluation times (e.g. 0.3 from the dt grid and 0.30000000000000004 from
+    # np.linspace): kept apart, an observable fires at both of them, or Pulser
+    # rejects the time list as containing duplicates.
+    merged_times_rel = [target_times_rel[0]]
+    for t in target_times_rel[1:]:
+        if t - merged_times_rel[-1] > _TIME_MATCHING_TOLERANCE:
+            merged_times_rel.append(t)
+    merged_times_rel[-1] = 1.0  # the last step ends exactly at the sequence duration
+
+    return [t * duration for t in merged_times_rel]
 
 
 def _extract_omega_delta_phi(
